@@ -29,6 +29,10 @@ CHECKS = {
                 technique='deterministic simulation with fault injection: structure-aware PDU mutation and random bytes fed to the real provider loop in six protocol states under seeded segmentation, then FIN/RST/silence; crash/hang/orderly-end oracle plus two-branch reaction oracle against R-fsm',
                 text='For Sta2, Sta3, Sta5, Sta6 (both roles), Sta7, Sta8, Sta13 (two routes): every mutation operator instance of DESIGN App. C on rich A-ASSOCIATE-RQ/AC, RJ, P-DATA (echo, multi-PDV store), release and abort PDUs (thorough; seeded third in quick), DIMSE-level garbage, seeded random bytes and bit flips; the provider task must not die, must reach idle with the socket closed within ARTIM+1 s of FIN/RST (or of silence where ARTIM is armed), must have told the user, must emit only well-formed PDUs, and its reaction to an unrecognised/malformed PDU must follow the Evt19 row (or, for a merely malformed one, its own type row).',
                 note='R-codec decides unrecognised/malformed/valid; reaction to valid PDUs and to DIMSE-level garbage is not judged beyond crash/hang/orderly end; sampling'),
+    'C13': dict(cat='fault_enumeration', ref='6/C13',
+                technique='deterministic simulation with fault injection: disconnection (FIN/RST/silence) enumerated after every byte prefix of every scripted conversation, RST placed exactly before each write, connect failures, stop requests at every quiescent point, provider stalls; bounded-liveness oracle in virtual time',
+                text='16 conversations (echo, multi-fragment store, pipelining, release and abort from either side, reject, unknown PDU, both release collisions, find; both roles) on the real provider loop: the peer stream is cut after every byte prefix and ended by FIN, RST or silence (thorough: all three at every offset), the connection is reset exactly before the k-th PDU write, connect() is refused or times out, kill() is requested at every quiescent point, the provider thread is stalled; within ARTIM+1 s of virtual time the provider must be idle with the connection closed, the user told, and kill() must return with the loop finished.',
+                note='silence must only end the provider where ARTIM is armed; Association.kill/release/abort on real AEs are exercised by the P2 workloads (C14/C15/C20); TCP model: FIN/RST ordering only'),
 }
 
 
